@@ -16,7 +16,7 @@ var BlockSizeMap = map[string]int{
 	"aes256": 32,
 }
 
-// BadDecryptError is returned when GCM tag verification fails
+// BadDecryptError is returned when GCM tag verification fails or CBC ciphertext could not be decrypted
 type BadDecryptError struct {
 	Message string
 }
@@ -128,7 +128,7 @@ func (c *CryptoCodec) Encrypt(hexKey, hexIv string, text []byte) ([]byte, error)
 
 	switch c.mode {
 	case CBC:
-		return c.encryptCBC(block, iv, text), nil
+		return c.encryptCBC(block, iv, text)
 	case CTR:
 		return c.encryptCTR(block, iv, text), nil
 	case GCM:
@@ -139,19 +139,25 @@ func (c *CryptoCodec) Encrypt(hexKey, hexIv string, text []byte) ([]byte, error)
 	return nil, errors.New(c.name, "Unsupported mode: %s", c.mode)
 }
 
-func (c *CryptoCodec) encryptCBC(block cipher.Block, iv, text []byte) []byte {
+func (c *CryptoCodec) encryptCBC(block cipher.Block, iv, text []byte) ([]byte, error) {
 	enc := cipher.NewCBCEncrypter(block, iv)
 
 	padded := text
 	if c.padding != NOPAD {
-		padSize := aes.BlockSize - (len(text) & aes.BlockSize)
+		padSize := aes.BlockSize - (len(text) % aes.BlockSize)
 		padding := bytes.Repeat([]byte{byte(padSize)}, padSize)
 		padded = append(padded, padding...)
+	} else if len(text)%aes.BlockSize != 0 {
+		return nil, errors.New(
+			c.name,
+			"Invalid text size. Text size must be a multiple of %d when padding is nopad but got %d",
+			aes.BlockSize, len(text),
+		)
 	}
 
 	encrypted := make([]byte, len(padded))
 	enc.CryptBlocks(encrypted, padded)
-	return encrypted
+	return encrypted, nil
 }
 
 func (c *CryptoCodec) encryptCTR(block cipher.Block, iv, text []byte) []byte {
@@ -169,7 +175,7 @@ func (c *CryptoCodec) Decrypt(hexKey, hexIv string, text []byte) ([]byte, error)
 
 	switch c.mode {
 	case CBC:
-		return c.decryptCBC(block, iv, text), nil
+		return c.decryptCBC(block, iv, text)
 	case CTR:
 		return c.decryptCTR(block, iv, text), nil
 	case GCM:
@@ -180,18 +186,31 @@ func (c *CryptoCodec) Decrypt(hexKey, hexIv string, text []byte) ([]byte, error)
 	return nil, errors.New(c.name, "Unsupported mode: %s", c.mode)
 }
 
-func (c *CryptoCodec) decryptCBC(block cipher.Block, iv, text []byte) []byte {
+func (c *CryptoCodec) decryptCBC(block cipher.Block, iv, text []byte) ([]byte, error) {
+	if len(text)%aes.BlockSize != 0 {
+		return nil, &BadDecryptError{
+			Message: "CBC ciphertext size is not a multiple of block size",
+		}
+	}
 	dec := cipher.NewCBCDecrypter(block, iv)
 
 	decrypted := make([]byte, len(text))
 	dec.CryptBlocks(decrypted, text)
 
 	if c.padding != NOPAD {
-		// unpadding
+		// unpadding, the last byte is the padding size and all padding bytes must have the same value
+		if len(decrypted) == 0 {
+			return nil, &BadDecryptError{Message: "CBC ciphertext is empty"}
+		}
 		padSize := int(decrypted[len(decrypted)-1])
+		if padSize == 0 || padSize > aes.BlockSize ||
+			!bytes.HasSuffix(decrypted, bytes.Repeat([]byte{byte(padSize)}, padSize)) {
+
+			return nil, &BadDecryptError{Message: "Invalid PKCS7 padding"}
+		}
 		decrypted = decrypted[:len(decrypted)-padSize]
 	}
-	return decrypted
+	return decrypted, nil
 }
 
 func (c *CryptoCodec) decryptCTR(block cipher.Block, iv, text []byte) []byte {
